@@ -58,6 +58,11 @@ types, assume_specifications, spec functions, lemmas):
                                       in the statement that starts with <needle>, `ITER_EXPR.find(|PAT| EXPR)` becomes `<name>(ITER_EXPR, <captures>)`: the loop std documents for
                                       Iterator::find (items tested in order, the FIRST one for which the predicate is true is returned, None if there is none), the closure
                                       lifted into `fn <name>_pred(verif_x: &Item, <captures>) -> bool { let PAT = verif_x; EXPR }`
+  //@selfrename <type>               (DESIGN 9.2 rule 27) a trait-impl method whose Self is a type alias of a reference (`impl Ext for EntityCommands<'a>`) is emitted as a free
+                                      function: `&mut self` becomes `verif_self: &mut <type>` and every `self` of the body `verif_self` (method call = function call with an explicit receiver)
+  //@liftsys <needle> | <name> | <generics> | <turbofish>   (DESIGN 9.2 rule 28; contract with //@lift|) in the statement that starts with <needle>, the closure `|PARAMS| { BODY }`
+                                      passed as a Bevy system is lifted into `fn <name><generics>(PARAMS) { BODY }` (PARAMS and BODY byte-for-byte; `In(..)` patterns desugared as for
+                                      any system fn) and the closure text is replaced by `<name><turbofish>`; the closure must not capture (a capture is a compile error = exit 2)
   //@okmap? <needle>                 (DESIGN 9.2 rule 15) the statement `E.ok().map(|p| CALL);` that starts with <needle> - value discarded - is read as
                                       `if let Ok(p) = E { CALL; }` (std: Result::ok + Option::map call the closure exactly when E is Ok, with its payload);
                                       skipped (recorded) when no such statement exists, e.g. because the code already uses `if let` / `let else`
@@ -703,6 +708,53 @@ def _lift_find(body, sig, needle, name, item, itype, extra, lf, fname, in_impl):
     return body[:i] + lead[:len(lead) - len(lead.lstrip())] + new + body[pc + 1:], [pred, loop], info
 
 
+def _lift_sys(body, needle, name, generics, turbofish, clauses, fname):
+    """Rule 28. Returns (new_body, fn text, info)."""
+    rx = re.compile(r'\s*'.join(re.escape(tok) for tok in needle.split()))
+    start = None
+    for j, d in rc.code_positions(body):
+        if rx.match(body, j) and (j == 0 or not (body[j - 1].isalnum() or body[j - 1] == '_')):
+            start = j; break
+    if start is None:
+        raise CutError('fn %s: statement for liftsys not found: %s' % (fname, needle))
+    # first `|` in the statement that follows `,` or `(` (closure argument)
+    p0 = None
+    for k, d in rc.code_positions(body, start):
+        if body[k] == ';' and d == 0:
+            break
+        if body[k] == '|':
+            q = k - 1
+            while q >= 0 and body[q].isspace(): q -= 1
+            if body[q] in ',(':
+                p0 = k; break
+    if p0 is None:
+        raise CutError('fn %s: no closure argument in statement %s' % (fname, needle))
+    # matching closing bar of the parameter list: first `|` at paren/angle depth 0
+    depth, p1 = 0, None
+    for k in range(p0 + 1, len(body)):
+        c = body[k]
+        if c in '([<': depth += 1
+        elif c in ')]>': depth -= 1
+        elif c == '|' and depth == 0:
+            p1 = k; break
+    params = body[p0 + 1:p1].strip().rstrip(',')
+    ob = body.index('{', p1)
+    if body[p1 + 1:ob].strip():
+        raise CutError('fn %s: closure body of the system closure is not a block' % fname)
+    cb = rc.match_close(body, ob)
+    cbody = body[ob:cb + 1]
+    sig = 'pub fn %s%s(%s)' % (name, generics, params)
+    sig, in_lets = _desugar_in_params(sig)
+    fbody = cbody
+    if in_lets:
+        fbody = cbody[:1] + '\n' + '\n'.join(in_lets) + cbody[1:]
+    text = '    ' + sig + '\n' + '\n'.join(clauses) + '\n    ' + fbody
+    info = {'fn': fname, 'lifted': name, 'captures': [], 'closure_sha256': hashlib.sha256(body[p0:cb + 1].encode()).hexdigest()[:16],
+            'statement_head': re.sub(r'\s+', ' ', body[p0:cb + 1])[:100],
+            'assumed': 'a non-capturing closure used as a Bevy system is the function with the same parameters and body'}
+    return body[:p0] + name + turbofish + body[cb + 1:], text, info
+
+
 def _desugar_in_params(sig):
     """`In(pat) : In<T>` parameter => `verif_in : In<T>` + `let In(pat) = verif_in;` (Rust's own desugaring)."""
     lets = []
@@ -840,6 +892,7 @@ def expand(template_path, repo='/repo'):
             lifts, lifted_out = [], []
             okmaps = []
             sigsubsts = []
+            selfrename = None
             mapors, thunks = [], []
             mapdefaults = []
             loopends = {}
@@ -849,7 +902,7 @@ def expand(template_path, repo='/repo'):
             afters = []
             while i + 1 < len(tpl) and (tpl[i + 1].strip().startswith('//@|') or tpl[i + 1].strip().startswith('//@loop')
                                         or tpl[i + 1].strip().startswith('//@ghost') or tpl[i + 1].strip().startswith('//@dropstmt') or tpl[i + 1].strip().startswith('//@atend') or tpl[i + 1].strip().startswith('//@after') or tpl[i + 1].strip().startswith('//@atreturn') or tpl[i + 1].strip().startswith('//@before')
-                                        or tpl[i + 1].strip().startswith('//@continue_to_else') or tpl[i + 1].strip().startswith('//@letelse_continue') or tpl[i + 1].strip().startswith('//@loopend') or tpl[i + 1].strip().startswith('//@loopafter') or tpl[i + 1].strip().startswith('//@lift') or tpl[i + 1].strip().startswith('//@sigsubst') or tpl[i + 1].strip().startswith('//@mapor') or tpl[i + 1].strip().startswith('//@thunk') or tpl[i + 1].strip().startswith('//@okmap') or tpl[i + 1].strip().startswith('//@mapdefault')):
+                                        or tpl[i + 1].strip().startswith('//@continue_to_else') or tpl[i + 1].strip().startswith('//@letelse_continue') or tpl[i + 1].strip().startswith('//@loopend') or tpl[i + 1].strip().startswith('//@loopafter') or tpl[i + 1].strip().startswith('//@lift') or tpl[i + 1].strip().startswith('//@sigsubst') or tpl[i + 1].strip().startswith('//@selfrename') or tpl[i + 1].strip().startswith('//@mapor') or tpl[i + 1].strip().startswith('//@thunk') or tpl[i + 1].strip().startswith('//@okmap') or tpl[i + 1].strip().startswith('//@mapdefault')):
                 i += 1
                 t = tpl[i].strip()
                 if t.startswith('//@|'):
@@ -859,6 +912,11 @@ def expand(template_path, repo='/repo'):
                 elif t.startswith('//@thunk'):
                     ct, nm, gen, tf, rt_ = [x.strip() for x in t[len('//@thunk'):].split(' | ', 4)]
                     lifts.append({'kind': 'thunk', 'closure': ct, 'name': nm, 'generics': gen, 'turbofish': tf, 'ret': rt_, 'clauses': [], 'pre': [], 'post': [], 'inv': []})
+                elif t.startswith('//@selfrename'):
+                    selfrename = t[len('//@selfrename'):].strip()
+                elif t.startswith('//@liftsys'):
+                    nd, nm, gen, tf = [x.strip() for x in t[len('//@liftsys'):].split('|', 3)]
+                    lifts.append({'kind': 'sys', 'needle': nd, 'name': nm, 'generics': gen, 'turbofish': tf, 'clauses': [], 'pre': [], 'post': [], 'inv': []})
                 elif t.startswith('//@sigsubst'):
                     a_, b_ = t[len('//@sigsubst'):].split('|', 1)
                     sigsubsts.append((a_.strip(), b_.strip()))
@@ -973,6 +1031,11 @@ def expand(template_path, repo='/repo'):
                 pass  # trait impl items carry no visibility
             elif not sig.startswith('pub fn'):
                 sig = re.sub(r'^' + rc.VIS, 'pub ', sig, count=1)
+            if selfrename:
+                if '&mut self' not in sig:
+                    raise CutError('fn %s: selfrename: no `&mut self` receiver' % name)
+                sig = sig.replace('&mut self', 'verif_self: &mut %s' % selfrename, 1)
+                side.setdefault('signature_substitutions', []).append({'fn': name, 'from': '&mut self (trait impl on a reference alias)', 'to': 'verif_self: &mut %s (free function)' % selfrename})
             for a_, b_ in sigsubsts:
                 if a_ not in sig:
                     raise CutError('fn %s: sigsubst: `%s` not in the signature' % (name, a_))
@@ -981,6 +1044,14 @@ def expand(template_path, repo='/repo'):
             if ret:
                 sig = _name_return(sig, ret)
             body, dropped = rc.drop_statements(fn['body'])
+            if selfrename:
+                code_ = set(j for j, d in rc.code_positions(body))
+                out_, last_ = [], 0
+                for m_ in re.finditer(r'(?<![A-Za-z0-9_])self(?![A-Za-z0-9_])', body):
+                    if m_.start() in code_:
+                        out_.append(body[last_:m_.start()]); out_.append('verif_self'); last_ = m_.end()
+                out_.append(body[last_:])
+                body = ''.join(out_)
             # rule 26: a closure parameter `_` is given a name (`|_|` -> `|_verif_unused|`); Verus rejects wildcard closure parameters, the meaning is the same
             n_wild = len(re.findall(r'\|\s*_\s*\|', body))
             if n_wild:
@@ -1035,6 +1106,13 @@ def expand(template_path, repo='/repo'):
                 body = body[:ob + 1] + '\n' + '\n'.join(loopbodies[ordinal]) + body[ob + 1:]
             body = _insert_loop_invariants(body, loops, name, loopvars)
             for lf in lifts:
+                if lf.get('kind') == 'sys':
+                    body, text_, linfo = _lift_sys(body, lf['needle'], lf['name'], lf['generics'], lf['turbofish'], lf['clauses'], name)
+                    lifted_out.append(text_)
+                    linfo['clauses'] = [c.strip() for c in lf['clauses']]
+                    linfo['file'] = f
+                    side.setdefault('lifted_closures', []).append(linfo)
+                    continue
                 if lf.get('kind') == 'find':
                     body, texts, linfo = _lift_find(body, sig, lf['needle'], lf['name'], lf['elem'], lf['itype'], lf['extra'], lf, name, anchor != '-')
                     lifted_out += texts
